@@ -409,7 +409,7 @@ pub fn run(rep: &mut Report) {
         RFC 8259 parser (serde_json as second opinion) and compared field by field; non-trivial = some string needs escaping; \
         distinct = distinct record".to_owned();
     rep.assume("'control character' = U+0000..U+001F (the JSON definition); thread names contain no NUL (std forbids it)");
-    let n = if rep.tier == "thorough" { 400_000 } else { 20_000 };
+    let n = if rep.tier == "thorough" { 600_000 } else { 100_000 };
     run_cases(rep, "record", n, |rep, rng, idx| {
         let c = gen_case(rng);
         let needs_escape = |s: &str| s.chars().any(|ch| (ch as u32) < 0x20 || ch == '"' || ch == '\\');
